@@ -6,6 +6,12 @@ COMMON_TRUSTED = [
 ]
 DT_BOUNDED = lambda prop: dict(name=f'datatype catalogue ({prop})', script='bounded/dt_bounded.py', args={'prop': prop}, timeout=600)
 
+def CB(name, contract_file, gens, keys=None, budget=120, **kw):
+    """bounded stand-in: contracts evaluated natively over enumerated inputs (bounded/contract_bounded.py)"""
+    return dict(name=name, script='bounded/contract_bounded.py',
+                args={'contract_file': contract_file, 'gens': gens, 'keys': keys, 'budget': budget}, **kw)
+
+
 PROPS = {
     'C01': dict(
         contract_files=['contracts/datatypes.py'],
@@ -38,6 +44,13 @@ PROPS = {
         level='proof',
         trusted_base=COMMON_TRUSTED + ['level tables of mlzlog (stated in the contract, validated bounded)'],
         uncovered=['Module.setRemoteLogging (parent walk over logger objects) and the dispatcher side of `logging` requests'],
+        bounded=[CB('logging-contracts', 'contracts/logging.py', 'gens_logging')],
+    ),
+    'C07': dict(
+        contract_files=['contracts/protocol.py'],
+        level='proof',
+        trusted_base=COMMON_TRUSTED + ['decode_msg / encode_msg_frame string codec (assumed)'],
+        uncovered=['codec inverse (string theory), request loop of RequestHandler.handle, send_reply line integrity, dispatcher reply triples'],
     ),
     'C02': dict(
         contract_files=['contracts/datatypes.py'],
